@@ -6,12 +6,14 @@ package main
 // sends them: JSON decimals decoded by encoding/json into btcjson.Vout.Value (float64).
 
 import (
+	"context"
 	"crypto/sha256"
 	"encoding/hex"
 	"encoding/json"
 	"errors"
 	"fmt"
 	"math/big"
+	"runtime"
 	"sort"
 	"strconv"
 	"strings"
@@ -118,11 +120,17 @@ func (c *c15Conn) GetBlockHash(int64) (*chainhash.Hash, error) {
 	if c.fail == 1 {
 		return nil, errors.New("rpc")
 	}
+	if c.fail == 3 {
+		return nil, fmt.Errorf("get block hash: %w", context.DeadlineExceeded)
+	}
 	return &chainhash.Hash{1}, nil
 }
 func (c *c15Conn) GetBlockVerboseTx(*chainhash.Hash) (*btcjson.GetBlockVerboseTxResult, error) {
 	if c.fail == 2 {
 		return nil, errors.New("rpc")
+	}
+	if c.fail == 4 {
+		return nil, fmt.Errorf("get block: %w", context.DeadlineExceeded)
 	}
 	var b btcjson.GetBlockVerboseTxResult
 	if err := json.Unmarshal([]byte(c.blockJSON), &b); err != nil {
@@ -302,7 +310,145 @@ func init() {
 		}
 		return joinOr(out, ";")
 	}
+	// events <domain> <feeAddr> <resources> <calls>
+	//   resources = rid,addr,fee;…  (built by the REAL config.NewBtcConfig from a raw chain config, as app.Run does)
+	//   calls     = height^fault^txs ! height^fault^txs …   fault: 0 none, 1 GetBlockHash fails, 2 GetBlockVerboseTx fails,
+	//               3/4 the same failures as timeouts (wrapped context.DeadlineExceeded)
+	// ONE FungibleTransferEventHandler lives across the whole sequence; each HandleEvents call is followed by draining the
+	// message channel.  =>  per call (joined by !): err | batches joined by + (ordered by destination), each the messages joined by ;
+	ops["C15.events"] = func(a []string) string {
+		raws := []interface{}{}
+		for _, r := range items(a[2], ";") {
+			f := strings.Split(r, ",")
+			raws = append(raws, map[string]interface{}{
+				"address":    c15AddrStr[int(u64(f[1]))],
+				"resourceID": fmt.Sprintf("0x%02xaa%060x", u64(f[0]), 0),
+				"feeAmount":  f[2],
+				"tweak":      "t",
+				"script":     "51",
+			})
+		}
+		cfg, err := config.NewBtcConfig(map[string]interface{}{
+			"id": int(u64(a[0])), "endpoint": "ws://localhost", "name": "btc", "username": "u", "password": "p",
+			"network": "testnet", "feeAddress": c15AddrStr[int(u64(a[1]))], "resources": raws,
+		})
+		if err != nil {
+			return "cfgerr"
+		}
+		resources := make(map[[32]byte]config.Resource)
+		for _, r := range cfg.Resources {
+			resources[r.ResourceID] = r
+		}
+		conn := &c15Conn{}
+		ch := make(chan []*message.Message)
+		eh := listener.NewFungibleTransferEventHandler(log.With(), *cfg.GeneralChainConfig.Id, listener.NewBtcDepositHandler(), ch, conn, resources, cfg.FeeAddress)
+		out := []string{}
+		for _, c := range strings.Split(a[3], "!") {
+			f := strings.SplitN(c, "^", 3)
+			txs := []string{}
+			for i, t := range items(f[2], "|") {
+				g := strings.SplitN(t, "~", 2)
+				txs = append(txs, c15TxJSON(string(unhx(g[0])), g[1], 1700000000+int64(i)))
+			}
+			conn.blockJSON = `{"hash":"00","height":` + f[0] + `,"tx":[` + strings.Join(txs, ",") + `]}`
+			conn.fail = int(u64(f[1]))
+			h, _ := new(big.Int).SetString(f[0], 10)
+			// How many batches does a history-free handler forward for this block?  Ask a FRESH handler's ProcessDeposits (real code).
+			want := 0
+			if conn.fail == 0 {
+				fresh := listener.NewFungibleTransferEventHandler(log.With(), *cfg.GeneralChainConfig.Id, listener.NewBtcDepositHandler(), nil, conn, resources, cfg.FeeAddress)
+				if dd, err := fresh.ProcessDeposits(new(big.Int).Set(h)); err == nil {
+					want = len(dd)
+				}
+			}
+			// The channel is unbuffered, so every sender goroutine HandleEvents started is still alive when it returns: their
+			// number says how many batches are on their way (a hint only: a goroutine of an earlier case may still be exiting).
+			base := runtime.NumGoroutine()
+			hcopy := new(big.Int).Set(h)
+			err := eh.HandleEvents(hcopy)
+			senders := runtime.NumGoroutine() - base
+			if hcopy.Cmp(h) != 0 {
+				out = append(out, "height-mutated")
+				continue
+			}
+			batches := [][]*message.Message{}
+			// the batches a history-free handler sends: blocking receive.  On the unchanged tree they always arrive, so the
+			// time-outs below only ever run out on a tree that forwards fewer batches than it resolves.
+			wait := 15 * time.Second
+			if senders < want {
+				wait = time.Second
+			}
+			if c15Broken {
+				wait = 50 * time.Millisecond
+			}
+			for len(batches) < want {
+				select {
+				case b := <-ch:
+					batches = append(batches, b)
+					continue
+				case <-time.After(wait):
+					c15Broken = true
+				}
+				break
+			}
+			missing := want - len(batches)
+			// anything beyond that (only a broken tree sends more): give counted senders a moment, then take what is there
+			for {
+				select {
+				case b := <-ch:
+					batches = append(batches, b)
+					continue
+				default:
+				}
+				if len(batches) < senders {
+					select {
+					case b := <-ch:
+						batches = append(batches, b)
+						continue
+					case <-time.After(20 * time.Millisecond):
+					}
+				}
+				break
+			}
+			for k := 0; k < missing; k++ {
+				batches = append(batches, nil)
+			}
+			if err != nil {
+				if len(batches) > 0 {
+					out = append(out, "err-but-sent")
+				} else {
+					out = append(out, "err")
+				}
+				continue
+			}
+			bs := []string{}
+			sort.SliceStable(batches, func(i, j int) bool { return c15BatchKey(batches[i]) < c15BatchKey(batches[j]) })
+			for _, b := range batches {
+				if b == nil {
+					bs = append(bs, "missing")
+					continue
+				}
+				ms := []string{}
+				for _, m := range b {
+					ms = append(ms, c15Msg(m))
+				}
+				bs = append(bs, joinOr(ms, ";"))
+			}
+			out = append(out, joinOr(bs, "+"))
+		}
+		return strings.Join(out, "!")
+	}
 	gens["C15"] = genC15
+}
+
+// set once a batch that a history-free handler sends stayed away: later cases do not wait long for theirs
+var c15Broken bool
+
+func c15BatchKey(b []*message.Message) int {
+	if len(b) == 0 {
+		return 1000
+	}
+	return int(b[0].Destination)
 }
 
 func c15Pow10(k int) uint64 {
@@ -394,6 +540,7 @@ func c15Payload(g *G) []byte {
 }
 
 func genC15(g *G) {
+	defer genC15Events(g)
 	// --- SHA-256 vectors (padding boundaries) and nonces
 	for _, n := range []int{0, 1, 3, 55, 56, 57, 63, 64, 65, 119, 120, 128, 200} {
 		g.Emit("sha", hx(g.Bytes(n)))
@@ -511,6 +658,132 @@ func genC15(g *G) {
 			txs = append(txs, hx([]byte(txh))+"~"+joinOr(vs, ";"))
 		}
 		g.Emit("process", itoa(1+g.Intn(3)), utoa(1+g.U64()%900000), itoa(bridge), itoa(fee), utoa(thr), joinOr(txs, "|"))
+	}
+}
+
+// a block for the events op: mostly plausible deposits paying one of the resources' addresses, fee output placed around the
+// resources' thresholds, destination taken from a small set so that one block carries several destinations
+func c15EventBlock(g *G, res [][3]string, feeAddr int) string {
+	nt := g.Intn(6)
+	txs := []string{}
+	fees := []uint64{}
+	for _, r := range res {
+		fees = append(fees, u64(r[2]))
+	}
+	for t := 0; t < nt; t++ {
+		vs := []string{}
+		if g.Intn(6) != 0 {
+			r := res[g.Intn(len(res))]
+			for k := 0; k <= g.Intn(2); k++ {
+				vs = append(vs, "t,"+r[1]+","+utoa(1+uint64(g.Intn(5000)))+",-")
+			}
+			f := fees[g.Intn(len(fees))]
+			switch g.Intn(4) {
+			case 0:
+				if f > 0 {
+					f--
+				}
+			case 1:
+				f++
+			}
+			vs = append(vs, "t,"+itoa(feeAddr)+","+utoa(f)+",-")
+			pl := []byte("0xe9f23A8289764280697a03aC06795eA92a170e42_" + []string{"1", "2", "3", "2", "3", "7"}[g.Intn(6)])
+			if g.Intn(12) == 0 {
+				pl = c15Payload(g)
+			}
+			vs = append(vs, "n,4,0,"+hx(append([]byte{0x6a, byte(len(pl))}, pl...)))
+			if g.Intn(3) == 0 {
+				c15Shuffle(g, vs)
+			}
+		} else {
+			for k := 0; k < g.Intn(3); k++ {
+				vs = append(vs, c15RandVout(g, int(u64(res[0][1])), feeAddr))
+			}
+		}
+		txs = append(txs, hx([]byte(hex.EncodeToString(g.Bytes(32))))+"~"+joinOr(vs, ";"))
+	}
+	return joinOr(txs, "|")
+}
+
+func genC15Events(g *G) {
+	P := func(d string) string {
+		pl := []byte("0xe9f23A8289764280697a03aC06795eA92a170e42_" + d)
+		return "n,4,0," + hx(append([]byte{0x6a, byte(len(pl))}, pl...))
+	}
+	dep := func(h string, addr int, amt, fee uint64, dest string) string {
+		return hx([]byte(h)) + "~t," + itoa(addr) + "," + utoa(amt) + ",-;t,1," + utoa(fee) + ",-;" + P(dest)
+	}
+	// several destinations in one block (1, 2, 3 destinations; several deposits per destination)
+	b2 := dep("aa", 0, 3, 5, "2") + "|" + dep("bb", 0, 4, 5, "3") + "|" + dep("cc", 0, 9, 5, "2")
+	b3 := b2 + "|" + dep("dd", 0, 11, 5, "1") + "|" + dep("ee", 0, 12, 5, "3")
+	g.Emit("events", "1", "1", "7,0,5", "100^0^"+dep("aa", 0, 3, 5, "2"))
+	g.Emit("events", "1", "1", "7,0,5", "100^0^"+b2)
+	g.Emit("events", "1", "1", "7,0,5", "100^0^"+b3)
+	g.Emit("events", "1", "1", "7,0,5", "100^0^"+b3+"!101^0^"+b2+"!102^0^-")
+	// the listener's retry: the block fetch fails (each way, plain and timeout), then the same height again
+	for _, f := range []string{"1", "2", "3", "4"} {
+		g.Emit("events", "1", "1", "7,0,5", "100^"+f+"^"+b2+"!100^0^"+b2)
+		g.Emit("events", "1", "1", "7,0,5", "99^0^"+b2+"!100^"+f+"^"+b3+"!100^"+f+"^"+b3+"!100^0^"+b3+"!101^0^"+b2)
+	}
+	// the same height twice without a fault, and going back to an earlier height (history-free: handled like any call)
+	g.Emit("events", "1", "1", "7,0,5", "100^0^"+b2+"!100^0^"+b2)
+	g.Emit("events", "1", "1", "7,0,5", "100^0^"+b2+"!101^0^"+b3+"!100^0^"+b2)
+	// several resources with different fee thresholds (both config orders), deposits paying below / between / above them
+	for _, rs := range []string{"7,0,5;8,2,9", "8,2,9;7,0,5", "7,0,9;8,2,5", "8,2,5;7,0,9", "7,0,5;8,0,9", "9,3,2;7,0,5;8,2,9"} {
+		blk := ""
+		for i, fee := range []uint64{4, 5, 7, 9, 10} {
+			for j, addr := range []int{0, 2} {
+				if blk != "" {
+					blk += "|"
+				}
+				blk += dep(fmt.Sprintf("t%d%d", i, j), addr, uint64(10+i), fee, []string{"2", "3"}[j])
+			}
+		}
+		g.Emit("events", "2", "1", rs, "500^0^"+blk)
+	}
+	// random sequences
+	for i := 0; i < g.Count(500, 12000); i++ {
+		nr := 1 + g.Intn(3)
+		res := [][3]string{}
+		rsStr := []string{}
+		rids := []int{7, 8, 9, 3}
+		c15ShuffleInts(g, rids)
+		baseFee := uint64(1 + g.Intn(20))
+		for k := 0; k < nr; k++ {
+			addr := []int{0, 2, 3, 0}[g.Intn(4)]
+			fee := baseFee + uint64(k*(1+g.Intn(4)))
+			if g.Bool() {
+				fee = baseFee + uint64((nr-k)*(1+g.Intn(4)))
+			}
+			r := [3]string{itoa(rids[k]), itoa(addr), utoa(fee)}
+			res = append(res, r)
+			rsStr = append(rsStr, strings.Join(r[:], ","))
+		}
+		nc := 1 + g.Intn(4)
+		calls := []string{}
+		h := 100 + uint64(g.Intn(1000))
+		blk := c15EventBlock(g, res, 1)
+		for c := 0; c < nc; c++ {
+			fault := 0
+			if g.Intn(4) == 0 {
+				fault = 1 + g.Intn(4)
+			}
+			calls = append(calls, utoa(h)+"^"+itoa(fault)+"^"+blk)
+			if fault == 0 || g.Intn(3) == 0 { // after a failed fetch the listener asks for the same height again
+				if g.Intn(5) != 0 {
+					h++
+				}
+				blk = c15EventBlock(g, res, 1)
+			}
+		}
+		g.Emit("events", itoa(1+g.Intn(3)), "1", joinOr(rsStr, ";"), strings.Join(calls, "!"))
+	}
+}
+
+func c15ShuffleInts(g *G, xs []int) {
+	for i := len(xs) - 1; i > 0; i-- {
+		j := g.Intn(i + 1)
+		xs[i], xs[j] = xs[j], xs[i]
 	}
 }
 
